@@ -38,6 +38,7 @@ OPTS = [(False, False), (False, True), (True, False), (True, True)]  # (keep_spa
 # representative of each remaining repr class (printable, C0, DEL, high byte)
 ALPHA_SMALL = [0x5C, 0x27, 0x6E, 0x0A, 0x78, 0x22, 0x00, 0x61]
 ALPHA_MID = ALPHA_SMALL + [0x72, 0x74, 0x09, 0x0D, 0x35, 0x63, 0x20, 0x1B, 0x7F, 0x80, 0xFF, 0x30]
+ALPHA_PAIR = ALPHA_MID[:12]  # backslash ' n \\n x " NUL a r t \\t \\r
 KEPT = "\t\n\r"
 
 
@@ -81,10 +82,10 @@ def h_full(X, n):
 
 
 def h_pair_special(X):
-    """every 2-byte string with at least one byte from ALPHA_MID (the other byte ranges over all 256 values)"""
+    """every 2-byte string with at least one byte from ALPHA_PAIR (the other byte ranges over all 256 values)"""
     ks, esq = X.choose("opts", OPTS)
     pos = X.choose("special_pos", 2)
-    sp = X.choose("special", ALPHA_MID)
+    sp = X.choose("special", ALPHA_PAIR)
     other = X.choose("hi", 16) * 16 + X.choose("lo", 16)
     data = bytes([sp, other] if pos == 0 else [other, sp])
     _pair(X, data, ks, esq)
@@ -230,7 +231,7 @@ def obligations(tier):
     ]
     if tier == "quick":
         obs.append(Symx("pairs-with-special-byte", h_pair_special,
-                        bounds=f"every 2-byte string with at least one byte from the {len(ALPHA_MID)}-byte alphabet {bytes(ALPHA_MID)!r} (other byte: all 256 values) "
+                        bounds=f"every 2-byte string with at least one byte from the {len(ALPHA_PAIR)}-byte alphabet {bytes(ALPHA_PAIR)!r} (other byte: all 256 values) "
                                "x 4 option combinations; the full 65536 x 4 product is the thorough tier",
                         encoded=ENCODED, must_reach=["encoded", "kept-space", "bare-quote"], parallel_depth=3))
         obs.append(Symx("alphabet-len4", lambda X: h_alpha(X, 4, ALPHA_SMALL),
